@@ -25,6 +25,8 @@ func checkLateMutation(method string, tr *trace) []issue {
 			now := takeSnap(method, e.liveOut)
 			if m := snapEqualData(&e.Out, &now); m != "" {
 				is = append(is, issue{"C09", "handed-on-altered-later", fmt.Sprintf("the state bias #%d %s handed on changed afterwards: %s", e.Pos, e.Name, m)})
+			} else if e.Out.Params.OK && now.Params.OK && !paramsSame(e.Out.Params, now.Params) {
+				is = append(is, issue{"C09", "handed-on-altered-later", fmt.Sprintf("the method parameters bias #%d %s handed on changed afterwards (a later stage wrote into them)", e.Pos, e.Name)})
 			}
 		}
 		if e.liveIn != nil {
@@ -43,6 +45,8 @@ func checkLateMutation(method string, tr *trace) []issue {
 	if tr.Eval != nil {
 		if m := snapEqualData(&tr.Eval.Before, &tr.Eval.After); m != "" {
 			is = append(is, issue{"C09", "evaluate-mutates", "the method modified the data it was given: " + m})
+		} else if tr.Eval.Done && tr.Eval.Before.Params.OK && tr.Eval.After.Params.OK && !paramsSame(tr.Eval.Before.Params, tr.Eval.After.Params) {
+			is = append(is, issue{"C09", "evaluate-mutates", "the method modified the parameters it was given"})
 		}
 	}
 	return is
@@ -268,6 +272,8 @@ func c09History(c *caseCtx) {
 		g := c09Gen(c)
 		if c.rng.Intn(8) == 0 {
 			g.M["preferenceFunction"] = "noSuchMethod" // rejected requests are part of a history too
+		} else if c.rng.Intn(4) == 0 {
+			g = c02Gen(c.rng, c.rng.Intn(70)) // incl. requests violating one documented constraint each (all error paths)
 		}
 		d := decide(g.body(), false)
 		c.count("evaluations", 1)
